@@ -87,9 +87,9 @@ End(S, nr) == IF S.al # <<>> THEN Flush(S, nr) ELSE S
 (* (or the closing brace) is reached, End at the closing brace                                   *)
 Line == [asg : {TRUE}, w : Widths, len : Lens, nl : Breaks] \cup [asg : {FALSE}, w : {0}, len : {0}, nl : Breaks]
 ColOf(ln) == Indent + ln.w + 1            \* name, one blank, operator
-(* C[i] = the column the operator of line i stands in when the pass starts (ColOf on a first run; *)
-(* on a second run over the pass's own output - sp_assign = ignore keeps the blanks - the column   *)
-(* the first run put it in)                                                                        *)
+(* C[i] = the column the operator of line i stands in when Add() looks at it (ColOf on a first    *)
+(* run; on a second run over the pass's own output with align_keep_extra_space the column the      *)
+(* first run put it in - sp_assign = ignore keeps the blanks)                                       *)
 RECURSIVE DriveC(_, _, _, _, _)
 DriveC(S, P, C, i, nr) ==
   IF i > Len(P) THEN End(S, nr)
@@ -135,6 +135,11 @@ ColsAgain(P) == LET C == Cols(P)
                     R == IF span = 0 THEN Start ELSE DriveC(Start, P, C, 1, FALSE)
                 IN [i \in 1..Len(P) |-> IF ~P[i].asg THEN 0
                                         ELSE IF Final(P, R, i) = 0 THEN C[i] ELSE R.out[Final(P, R, i)].col]
+(* Add() first pulls the operator back to the column spacing alone gives it ("tighten down the     *)
+(* spacing between ref and start") unless align_keep_extra_space is set: without that option a      *)
+(* second run starts from the same columns as the first one                                         *)
+ColsAgainK(P, keep) == IF keep THEN ColsAgain(P) ELSE Cols(P)
+(* With align_keep_extra_space:                                                                     *)
 (* Without a threshold the pass is a fixed point of itself.  With one it is not: an operator the   *)
 (* first run left alone (too far from the group) can be within the threshold of the columns the    *)
 (* first run produced - Stable is VIOLATED under Align_thresh_unstable.cfg, and the counterexample *)
